@@ -18,10 +18,10 @@ func init() {
 		var jobs []Job
 		for k := 1; k <= maxk; k++ {
 			jobs = append(jobs, Job{Pkg: filePkg, Fn: "VF_C16_Append", Opts: opts, Tag: fmt.Sprintf("append k=%d", k), Case: "append",
-				Params: map[string]string{"k": strconv.Itoa(k), "tag": fmt.Sprintf("a%d_%d", k, cr.Seed)}})
+				Params: map[string]string{"k": strconv.Itoa(k), "tag": fmt.Sprintf("a%d_%d", k, cr.Seed), "exact_json_len": "1"}})
 		}
 		jobs = append(jobs, Job{Pkg: filePkg, Fn: "VF_C16_Ignore", Opts: opts, Tag: "ignore lists", Case: "ignore",
-			Params: map[string]string{"tag": fmt.Sprintf("i_%d", cr.Seed)}})
+			Params: map[string]string{"tag": fmt.Sprintf("i_%d", cr.Seed), "exact_json_len": "1"}})
 		res := cr.Pool.Run(jobs)
 		cr.absorb(jobs, res)
 		st, tr := 0, 0
